@@ -21,8 +21,20 @@ pub fn write_trace(path: &str, cores: usize, max_pfn: usize, evs: &[Ev]) {
     const ENTRIES: usize = (PAGE - 4) / 16;
     // group events per cpu, preserving global order through the time stamp
     let mut pages: Vec<(u32, Vec<u128>)> = vec![];
-    for (i, e) in evs.iter().enumerate() {
-        let time_us = (i as u128 + 1) * 16; // exactly representable as f32 seconds? order is what matters
+    // Time stamps. The replayer merges the per-CPU pages by sorting on the time stamp converted to
+    // f32 *seconds*, which resolves 1 us only below ~16.8 s. Short traces keep small, exactly
+    // representable stamps; longer ones (>= 24 events: beyond the insertion-sort threshold of the
+    // standard sorts) start at 100 s, where consecutive events of one CPU (1 us apart) collapse to
+    // the same f32 key and only the *stability* of the merge keeps them in program order; a change
+    // of CPU advances the clock by 64 us (> the 7.6 us resolution at 100 s), so the global order
+    // of the trace stays well defined.
+    let late = evs.len() >= 24;
+    let mut clock: u128 = if late { 100_000_000 } else { 0 };
+    let mut last_cpu = usize::MAX;
+    for e in evs.iter() {
+        clock += if !late { 16 } else if e.cpu == last_cpu { 1 } else { 64 };
+        last_cpu = e.cpu;
+        let time_us = clock;
         let entry: u128 = (time_us & ((1 << 38) - 1))
             | ((e.pfn as u128 & 0xff_ffff) << 38)
             | ((e.alloc as u128) << 62)
@@ -132,7 +144,11 @@ pub fn generate(u: &mut Unit, rng: &mut Rng, n: usize, bin: &str, work: &str) {
                 let p = 1 + rng.below(max_pfn_hdr - 1);
                 evs.push(Ev { alloc: false, pfn: p, order: rng.below(3), cpu, flags });
             } else {
-                let i = rng.below(held.len());
+                // every third free releases the block allocated last, on the CPU of the previous event:
+                // in the late traces the two events then share their f32 sort key (see `write_trace`)
+                let recent = rng.chance(1, 3);
+                let i = if recent { held.len() - 1 } else { rng.below(held.len()) };
+                let cpu = if recent { evs.last().map(|e: &Ev| e.cpu).unwrap_or(cpu) } else { cpu };
                 let (p, o) = held.swap_remove(i);
                 // whole, first, middle or last part
                 let k = if rng.chance(1, 2) { o } else { rng.below(o + 1) };
